@@ -334,3 +334,13 @@ def all_leaves(t):
             stack.extend(s for _, s in n[2])
         elif tag == "unm":
             stack.append(n[2])
+
+
+def subterms(v):
+    """All nested tuples of a value term (pre-order)."""
+    stack = [v]
+    while stack:
+        n = stack.pop()
+        if isinstance(n, tuple):
+            yield n
+            stack.extend(x for x in n if isinstance(x, tuple))
